@@ -7,6 +7,7 @@ uses random ones – only stages and equality classes of keys are compared.
 -/
 import DosModel.Model.DkgSession
 import DosModel.Model.VssZr
+import DosModel.Model.DkgAdv
 
 namespace Dos.DkgSim
 open Dos Dos.Vss Dos.Dkg
@@ -33,6 +34,7 @@ structure World where
   dup : List Nat
   ms : List (Member S P)
   prev : Option (List (Member S P))
+  prevF : Option (List (Member S P)) := none   -- an earlier session run with FRESH keys (`genPub` draws a key per call)
 
 def pubs (dup : List Nat) (n : Nat) : List P := (List.range n).map (fun k => longOf dup k • g)
 
@@ -66,6 +68,17 @@ def doResps (ms : List (Member S P)) (k i : Nat) : List (Member S P) :=
 /-- a complete honest session in canonical order (the source of replayed messages) -/
 def runPrev (dup : List Nat) (n : Nat) : List (Member S P) :=
   let ms := freshMembers dup n 61 19000
+  let r := List.range n
+  let ms := r.foldl doStart ms
+  let pairs := r.flatMap (fun i => (r.filter (· ≠ i)).map (fun j => (j, i)))
+  let ms := pairs.foldl (fun ms x => doPk ms x.1 x.2) ms
+  let ms := pairs.foldl (fun ms x => doDeal ms x.1 x.2) ms
+  pairs.foldl (fun ms x => doResps ms x.1 x.2) ms
+
+/-- a complete honest session in which every member uses a key of that session only -/
+def runPrevFresh (n : Nat) : List (Member S P) :=
+  let ms := (List.range n).map (fun k =>
+    Member.init n k (Zr.ofNat (2000 + 7 * k)) (polyOf 71 (n / 2 + 1) k) (ephsOf 29000 n k))
   let r := List.range n
   let ms := r.foldl doStart ms
   let pairs := r.flatMap (fun i => (r.filter (· ≠ i)).map (fun j => (j, i)))
@@ -179,6 +192,20 @@ def injectSpec (w : World) (spec : String) (to : Nat) : World :=
     match w.prev.bind (fun pm => (getM pm (a 1)).bind (fun m => sentDeal m (a 2))) with
     | some d => deliverDeal { d with index := a 3 }
     | none => w
+  | some "FD" =>
+    match w.prevF.bind (fun pm => (getM pm (a 1)).bind (fun m => sentDeal m (a 2))) with
+    | some d => deliverDeal { d with index := a 3 }
+    | none => w
+  | some "FR" =>
+    match w.prevF.bind (fun pm => genuineResp pm (a 1) (a 2)) with
+    | some r => deliverResp { r with index := a 3 }
+    | none => w
+  | some "O" =>
+    -- oracle answer: another run of member `a 1` with the same long-term key (`Model/DkgAdv.lean`)
+    match oracleAnswer g (longOf w.dup (a 1)) (pubs w.dup w.n) (polyOf 7777 (w.n / 2 + 1) (a 1))
+        (advDeal w.dup w.n (a 2) (a 3) (a 1) (f.getD 4 "")) with
+    | some r => deliverResp (if f.length > 5 then { r with index := a 5 } else r)
+    | none => w
   | some "R" => deliverResp (advResp w (a 1) (a 2) (f.getD 3 "") (f.getD 4 "" = "a") (f.getD 5 ""))
   | some "GR" =>
     match genuineResp w.ms (a 1) (a 2) with
@@ -235,7 +262,9 @@ def runLine (w : List String) : String :=
       | some d => (d.2.splitOn ".").map parseNat
       | none => []
     let needPrev := dl.any (fun d => d.2.startsWith "P" || (d.2.splitOn ".prev").length > 1)
-    let w0 : World := { n := n, dup := dup, ms := freshMembers dup n 11 9000, prev := if needPrev then some (runPrev dup n) else none }
+    let needPrevF := dl.any (fun d => d.2.startsWith "F")
+    let w0 : World := { n := n, dup := dup, ms := freshMembers dup n 11 9000, prev := if needPrev then some (runPrev dup n) else none,
+                        prevF := if needPrevF then some (runPrevFresh n) else none }
     let w1 := if evs = "-" then w0 else (evs.splitOn ",").foldl (stepEvent dl) w0
     let outs := w1.ms.map (fun m => match m.stage with | .done _ ks => some ks | _ => none)
     s!"st={String.intercalate "," (w1.ms.map stageCode)} keys={keyClasses outs}"
